@@ -6,6 +6,8 @@ import (
 	"fmt"
 	"math/rand"
 	"os"
+	"os/exec"
+	"regexp"
 	"runtime"
 	"strings"
 	"time"
@@ -441,6 +443,257 @@ func corpus() []script {
 	}
 }
 
+// ---------- C19: scripts with Stop/Break run in child processes (a crash of the queue kills the process) ----------
+
+type childIn struct {
+	W, L    int
+	Stimuli []Stim `json:"stimuli"`
+}
+
+// runChild executes the stimuli, then drains adaptively, appending every completed step to the output file as one JSON
+// line (so that the parent still has the observations made before a crash).
+func runChild(in, out string) {
+	var ci childIn
+	b, err := os.ReadFile(in)
+	if err == nil {
+		err = json.Unmarshal(b, &ci)
+	}
+	if err != nil {
+		fmt.Fprintln(os.Stderr, "child:", err)
+		os.Exit(2)
+	}
+	f, err := os.OpenFile(out, os.O_CREATE|os.O_WRONLY|os.O_TRUNC, 0o644)
+	if err != nil {
+		fmt.Fprintln(os.Stderr, "child:", err)
+		os.Exit(2)
+	}
+	s := newSess(ci.W, ci.L)
+	s.onStep = func(st Step) {
+		j, _ := json.Marshal(st)
+		f.Write(append(j, '\n'))
+		f.Sync()
+	}
+	s.onIntent = func(st Stim) {
+		j, _ := json.Marshal(map[string]any{"intent": st})
+		f.Write(append(j, '\n'))
+		f.Sync()
+	}
+	for _, st := range ci.Stimuli {
+		s.do(st)
+	}
+	s.finishAll(200)
+	if s.unstable {
+		f.Write([]byte("{\"unstable\":true}\n"))
+	}
+	f.Close()
+	os.Exit(0)
+}
+
+type crash struct {
+	W, L     int
+	Stimuli  []Stim `json:"stimuli"`
+	Script   string `json:"script"`
+	Done     int    `json:"steps_completed"`
+	Kind     string `json:"kind"` // panic | hang | exit
+	Panic    string `json:"panic"`
+	Frames   []string `json:"frames"`
+	Sig      string `json:"signature"`
+	Stderr   string `json:"stderr_tail"`
+}
+
+var frameRe = regexp.MustCompile(`workqueue\.\(\*Queue\)\.(\w+)`)
+var panicRe = regexp.MustCompile(`(?m)^(panic: .*|fatal error: .*)$`)
+
+// spawn runs one script in a child process and returns the steps it completed plus a crash record (nil if it exited 0).
+func (g *world) spawn(self string, dir string, k int, W, L int, stims []Stim) ([]Step, *crash) {
+	in := fmt.Sprintf("%s/child-%d.json", dir, k)
+	out := fmt.Sprintf("%s/child-%d.jsonl", dir, k)
+	b, _ := json.Marshal(childIn{W, L, stims})
+	os.WriteFile(in, b, 0o644)
+	cmd := exec.Command(self, "-child", in, "-out", out)
+	var errb strings.Builder
+	cmd.Stderr = &errb
+	cmd.Stdout = nil
+	done := make(chan error, 1)
+	cmd.Start()
+	go func() { done <- cmd.Wait() }()
+	var werr error
+	hang := false
+	select {
+	case werr = <-done:
+	case <-time.After(60 * time.Second): // generous watchdog: a script takes milliseconds
+		cmd.Process.Kill()
+		<-done
+		hang = true
+	}
+	steps := []Step{}
+	unstable := false
+	var intent *Stim
+	if ob, err := os.ReadFile(out); err == nil {
+		for _, line := range strings.Split(string(ob), "\n") {
+			if strings.HasPrefix(line, "{\"unstable\"") {
+				unstable = true
+				continue
+			}
+			if strings.HasPrefix(line, "{\"intent\"") {
+				var it struct {
+					Intent Stim `json:"intent"`
+				}
+				if json.Unmarshal([]byte(line), &it) == nil {
+					intent = &it.Intent
+				}
+				continue
+			}
+			var st Step
+			if line != "" && json.Unmarshal([]byte(line), &st) == nil {
+				steps = append(steps, st)
+				intent = nil
+			}
+		}
+	}
+	os.Remove(in)
+	os.Remove(out)
+	if werr == nil && !hang && !unstable {
+		return steps, nil
+	}
+	sh := make([]string, len(stims))
+	for i, st := range stims {
+		sh[i] = short(st)
+	}
+	c := &crash{W: W, L: L, Stimuli: stims, Script: strings.Join(sh, " "), Done: len(steps)}
+	se := errb.String()
+	if len(se) > 1500 {
+		c.Stderr = se[:1500]
+	} else {
+		c.Stderr = se
+	}
+	if intent != nil && !hang && !unstable {
+		// the stimulus being processed when the process died: res 99 = "died here"; Coq checks that the model can panic here
+		steps = append(steps, Step{*intent, Obs{Started: []int{}, Returned: []int{}, Items: [][3]int{}, Consulted: []int{}, Res: 99}})
+	}
+	switch {
+	case hang || unstable:
+		c.Kind = "hang"
+		c.Sig = "crash:hang"
+	default:
+		c.Kind = "panic"
+		if m := panicRe.FindString(se); m != "" {
+			c.Panic = m
+		} else {
+			c.Kind = "exit"
+			c.Panic = fmt.Sprint(werr)
+		}
+		seen := map[string]bool{}
+		// frames of the panicking goroutine only (first goroutine block after the panic line)
+		blk := se
+		if i := strings.Index(blk, "\n\ngoroutine"); i >= 0 {
+			blk = blk[i+2:]
+			if j := strings.Index(blk, "\n\n"); j >= 0 {
+				blk = blk[:j]
+			}
+		}
+		for _, m := range frameRe.FindAllStringSubmatch(blk, -1) {
+			if !seen[m[1]] {
+				seen[m[1]] = true
+				c.Frames = append(c.Frames, m[1])
+			}
+		}
+		c.Sig = "crash:" + c.Panic + ":" + strings.Join(c.Frames, ",")
+	}
+	return steps, c
+}
+
+// emitSteps turns the steps of a child run into a case (same rendering as emit).
+func (g *world) emitSteps(W, L int, steps []Step, gen string, extra []string) {
+	s := &sess{W: W, L: L, steps: steps}
+	for _, st := range steps {
+		if st.S.Op == "enq" {
+			s.items = append(s.items, &item{idx: len(s.items), prio: st.S.A})
+		}
+	}
+	before := len(g.w.Cases)
+	g.emit(s, gen)
+	if len(g.w.Cases) > before {
+		c := &g.w.Cases[len(g.w.Cases)-1]
+		c.Tags = append(c.Tags, extra...)
+		c.Trivial = false
+	}
+}
+
+func (g *world) runC19(tier, dir string) (map[string]any, []crash) {
+	self, _ := os.Executable()
+	os.MkdirAll(dir, 0o755)
+	crashes := []crash{}
+	k := 0
+	nChildren := 0
+	// workloads: n items of equal priority (so they start in arrival order), finished in that order; some return errors;
+	// optionally one error subscriber; Stop or Break injected at every position; then two more Enqueue calls
+	type wl struct {
+		W, L, n int
+		errAt   int // item that returns an error (-1 none)
+		sub     bool
+	}
+	wls := []wl{{1, 1, 0, -1, false}, {1, 1, 1, -1, false}, {1, 1, 4, -1, false}, {2, 2, 3, -1, false}, {2, 1, 6, -1, false}, {1, 2, 3, 1, true}}
+	if tier == "thorough" {
+		wls = append(wls, wl{2, 2, 7, -1, false}, wl{3, 1, 6, 2, true}, wl{1, 3, 6, -1, false}, wl{3, 3, 9, 4, false}, wl{2, 1, 5, 0, true})
+	}
+	for _, w := range wls {
+		base := []Stim{}
+		if w.sub {
+			base = append(base, Stim{Op: "esub"})
+		}
+		for i := 0; i < w.n; i++ {
+			base = append(base, Stim{Op: "enq", A: 1, B: i})
+		}
+		for i := 0; i < w.n; i++ {
+			e := -1
+			if i == w.errAt {
+				e = 0
+			}
+			base = append(base, Stim{Op: "fin", A: i, B: e})
+			if i == w.errAt && w.sub {
+				base = append(base, Stim{Op: "erecv", A: 0})
+			}
+		}
+		for _, op := range []string{"stop", "break"} {
+			for pos := 0; pos <= len(base); pos++ {
+				stims := append([]Stim{}, base[:pos]...)
+				stims = append(stims, Stim{Op: op})
+				// completions scripted after the injection point are left to the adaptive drain (they may not be
+				// enabled any more); Enqueue calls after it are kept: they must return and never run
+				nEnq := 0
+				for _, st := range base[:pos] {
+					if st.Op == "enq" {
+						nEnq++
+					}
+				}
+				for _, st := range base[pos:] {
+					if st.Op == "enq" {
+						st.B = nEnq
+						nEnq++
+						stims = append(stims, st)
+					}
+				}
+				stims = append(stims, Stim{Op: "enq", A: 1, B: nEnq})
+				steps, c := g.spawn(self, dir, k, w.W, w.L, stims)
+				k++
+				nChildren++
+				tag := "no-crash"
+				if c != nil {
+					crashes = append(crashes, *c)
+					tag = "child-" + c.Kind
+				}
+				if len(steps) > 0 {
+					g.emitSteps(w.W, w.L, steps, "inject-"+op, []string{tag})
+				}
+			}
+		}
+	}
+	scope := map[string]any{"children": nChildren, "crashed_children": len(crashes),
+		"workloads": fmt.Sprintf("%d workloads (W,L,n items, optional error + subscriber) x {Stop,Break} injected at every position, followed by the remaining Enqueue calls + 1 and an adaptive drain", len(wls))}
+	return scope, crashes
+}
+
 // ---------- main ----------
 
 func main() {
@@ -452,7 +705,12 @@ func main() {
 	rerun := flag.String("rerun", "", "JSON file with a list of {W,L,stimuli}: run each -times times, nothing else")
 	times := flag.Int("times", 3, "")
 	nrandom := flag.Int("random", -1, "number of random scripts (default by tier)")
+	child := flag.String("child", "", "run the script in this file (child-process mode of -prop C19)")
 	flag.Parse()
+	if *child != "" {
+		runChild(*child, *out)
+		return
+	}
 	if *module == "" {
 		*module = "Corr" + *prop
 	}
@@ -488,6 +746,12 @@ func main() {
 				}
 			}
 		}
+	} else if *prop == "C19" {
+		sc, crashes := g.runC19(*tier, *out+"-children")
+		for kk, v := range sc {
+			scope[kk] = v
+		}
+		g.w.Extra["crashes"] = crashes
 	} else {
 		// 1. corpus
 		for _, sc := range corpus() {
@@ -505,7 +769,7 @@ func main() {
 			alpha, n = "abfg", 5
 		}
 		if *tier == "thorough" {
-			n += 2
+			n += 1
 			Ls = []int{1, 2, 3}
 		}
 		cnt := 0
